@@ -75,6 +75,8 @@ def run(ctx):
             kind = rng.choice(kinds)
             n0 = len(peer.raw)
             desc, ck, check = None, None, None
+            watched = [k for k in list(spa.struct.user_demands) + ["SetpointG", "TempUnits"] if k in spa.accessors]
+            before = {k: spa.accessors[k].raw_value for k in watched}
             if kind == "mode" and f.pumps:
                 p = rng.choice(f.pumps)
                 mode = rng.choice(list(p.modes) + ["NOPE"])
@@ -132,7 +134,11 @@ def run(ctx):
                 lits = lits[:1]
                 ctr2 = [1 if ctr[0] == 191 else ctr[0] + 1, ctr[1]]
                 spa._protocol._sequence_counter_protocol = ctr2[0]
-            out.append({"snap": snap, "desc": desc, "expr": "chk_cmd %s %s (%d, %d) (%s) [%s] (%d, %d)" % (cctx, vf.zb(blk), ctr[0], ctr[1], ck, "; ".join(lits), ctr2[0], ctr2[1]),
+            after = {k: spa.accessors[k].raw_value for k in watched}
+            # the one item the command is about: everything else the spa holds for its devices must read as before
+            target = {"mode": lambda: p._user_demand["demand"], "turn": lambda: st_key, "target": lambda: "SetpointG", "unit": lambda: "TempUnits", "wc": lambda: None}[kind]()
+            collateral = [(k, before[k], after[k]) for k in watched if k != target and before[k] != after[k]]
+            out.append({"snap": snap, "desc": desc, "collateral": collateral, "expr": "chk_cmd %s %s (%d, %d) (%s) [%s] (%d, %d)" % (cctx, vf.zb(blk), ctr[0], ctr[1], ck, "; ".join(lits), ctr2[0], ctr2[1]),
                         "sent": lits, "readback_ok": (check() if check else None),
                         "mirror": spa.struct.status_block == peer.sim.structure.status_block})
         await cl.close()
@@ -152,6 +158,9 @@ def run(ctx):
             if r["readback_ok"] is False:
                 ctx.fail("command:readback:%s" % r["desc"][0], "after the spa's echo the client does not read the requested value (%s)" % (r["desc"],),
                          {"snapshot": snap, "command": r["desc"], "datagrams": r["sent"]})
+            if r["collateral"]:
+                ctx.fail("command:collateral:%s" % r["desc"][0], "command %s also changed %s on the spa" % (r["desc"], r["collateral"][:3]),
+                         {"snapshot": snap, "command": r["desc"], "datagrams": r["sent"], "also_changed": r["collateral"]})
             if not r["mirror"]:
                 ctx.fail("command:mirror", "client block differs from the spa's after the echo", {"snapshot": snap, "command": r["desc"]})
             for l in r["sent"]:
